@@ -1,3 +1,4 @@
+mod embed_stream;
 mod handle_stream;
 mod path_stream;
 mod record_stream;
@@ -49,6 +50,7 @@ fn main() {
         "tree" => tree_stream::run(&o),
         "handle" => handle_stream::run(&o),
         "record" => record_stream::run(&o),
+        "embed" => embed_stream::run(&o),
         "replay" => replay::run(&o),
         s => {
             eprintln!("unknown stream {}", s);
